@@ -194,6 +194,9 @@ CLASSES = {
     "HNode": (lambda l: HNode(_name(l)), "NM", True),
     "HAnyNode": (lambda l: HAnyNode(name=_name(l)), "NM", True),
     "HSymlink": (lambda l: HSymlink(Node("target-of-%s" % l)), "NM", True),
+    # links whose target is the previous node of the same universe (so link and target can sit in one tree and both have children)
+    "HSymlinkU": (None, "NM", True),
+    "SymlinkNodeU": (None, "NM", False),
     "Node": (lambda l: Node(_name(l)), "NM", False),
     "AnyNode": (lambda l: AnyNode(name=_name(l)), "NM", False),
     "SymlinkNode": (lambda l: SymlinkNode(Node("target-of-%s" % l)), "NM", False),
@@ -238,7 +241,13 @@ def make_universe(spec, state, route="parent", take_snapshots=False):
     CURRENT[0] = rec
     n = len(state)
     classes = class_list(spec, n)
-    universe = [CLASSES[classes[i]][0](i) for i in range(n)]
+    universe = []
+    for i in range(n):
+        if classes[i] in ("HSymlinkU", "SymlinkNodeU"):
+            target = universe[i - 1] if i else Node("target-of-0")
+            universe.append((HSymlink if classes[i] == "HSymlinkU" else SymlinkNode)(target))
+        else:
+            universe.append(CLASSES[classes[i]][0](i))
     for node in universe:
         rec.labels.add(node)
     rec.universe = universe
